@@ -123,7 +123,7 @@ func runC05(args []string) error {
 	r := newRng(*seed)
 	nMain, nRegion, nCyc, nHost := 80, 32, 4, 40
 	if *tier == "thorough" {
-		nMain, nRegion, nCyc, nHost = 2000, 600, 40, 1200
+		nMain, nRegion, nCyc, nHost = 1700, 500, 40, 1000
 	}
 	t0 := time.Now()
 	st := &c05State{sm: sm, distinct: distinctSet{}}
